@@ -566,8 +566,9 @@ claim(
     "Over the ledger model: while a submission call carries ForceQueuingTag no body can begin on the calling thread "
     "(C47_fq_never_begins_inline) and neither the pool's nor the set's inline decision is enabled "
     "(C47_fq_blocks_inline_decisions); the tag of a frame is dropped only by the zero-thread path, which is enabled only when "
-    "the pool has no threads or is being resized (C47_inline0_needs_no_threads, C47_fq_cleared_only_without_threads, "
-    "C47_fq_cleared_top). " + _SCHED_TIE + "Oracle: a force-queued task never runs on its submitting thread before the call "
+    "the pool has no threads or is being resized, or, for the later tasks of one bulk call, when the call found the pool "
+    "without threads at its start (C47_inline0_needs_no_threads, C47_zeroPath_only_after_fq_cleared, "
+    "C47_fq_cleared_only_without_threads, C47_fq_cleared_top). " + _SCHED_TIE + "Oracle: a force-queued task never runs on its submitting thread before the call "
     "returns when the pool never had zero threads.",
     _SCHED_NOTE,
     "Lean 4 proof (frame invariant over a ledger automaton) + trace validation under a deterministic scheduler",
